@@ -43,7 +43,10 @@ ALT = ['absent', 'value', 'none_pos', 'value_kw', 'none_kw']
 # or a custom one defined via interfacemethod on the interface itself, on its
 # base ('inh'), on its base while the interface defines another interfacemethod
 # ('inh+method'), or on both with the child overriding ('override')
-ADAPT = ['std', 'std+method'] + [k + s for k in ('c_none', 'c_value', 'c_raise')
+# 'std+providedBy:yes' / ':no': the standard __adapt__ on an interface that
+# overrides *providedBy* through interfacemethod ("other interface methods can
+# be overridden this way too"): the overriding method decides
+ADAPT = ['std', 'std+method', 'std+providedBy:yes', 'std+providedBy:no'] + [k + s for k in ('c_none', 'c_value', 'c_raise')
                                  for s in ('', ':inh', ':inh+method', ':override')]
 # 'slots-direct': an instance without __dict__ whose class reserves a slot for
 # __provides__, declared with directlyProvides
@@ -60,6 +63,16 @@ def make_iface(adapt):
             @interfacemethod
             def helper(self):
                 return 1
+        return I
+    if adapt.startswith('std+providedBy'):
+        answer = adapt.endswith(':yes')
+
+        class I(Interface):
+            __module__ = wmod()
+
+            @interfacemethod
+            def providedBy(self, obj):
+                return answer
         return I
     adapt, _, shape = adapt.partition(':')
 
@@ -245,6 +258,8 @@ def make_hook(kind, i, I, obj):
 
 
 def expected(conf, provided, hooks, alt, adapt):
+    if adapt.startswith('std+providedBy'):
+        provided = 'class' if adapt.endswith(':yes') else 'no'
     adapt = 'std' if adapt.startswith('std') else adapt.partition(':')[0]
     lg = []
     if conf in ('none', 'value', 'raise_val', 'raise_type_inner', 'raise_attrerr_inner', 'value_falsy',
@@ -455,8 +470,8 @@ def run(ctx):
         hooklists += list(itertools.product(HOOK, repeat=k))
     # an interface with a custom __adapt__ never reaches the hooks: three hook
     # lists are enough to see that none is called
-    cases = [('call', c) for c in itertools.product(ADAPT[:2], CONF, PROVIDED, hooklists, ALT)]
-    cases += [('call', c) for c in itertools.product(ADAPT[2:], CONF, PROVIDED,
+    cases = [('call', c) for c in itertools.product(ADAPT[:4], CONF, PROVIDED, hooklists, ALT)]
+    cases += [('call', c) for c in itertools.product(ADAPT[4:], CONF, PROVIDED,
                                                       [(), ('v',), ('raise', 'v')], ALT)]
     cases += [('reg', c) for c in itertools.product(
         ['empty', 'R0', 'R1', 'extends', 'none-factory', 'named-only', 'None-required'],
